@@ -111,11 +111,23 @@ def _run_ppt(ctx, spec, rng):
         rho = lam * np.outer(psi, psi.conj()) + (1 - lam) * np.eye(big) / big
     else:
         rho = 0.5 * gen.density(rng, big, big, cplx) + 0.5 * np.eye(big) / big
+    designed = None
+    if kind == 2 and (r // 4) % 2 == 1:
+        # smallest eigenvalue of the partial transpose designed: (1 - lam) / N - lam s0 s1 = target, a factor 20 .. 1e4 away from the 1e-8 threshold on
+        # either side ("answers exactly whether the smallest eigenvalue is above minus the tolerance")
+        designed = [-1e-4, -1e-5, -1e-6, -2e-7, 2e-7, 1e-6, 1e-4][(r // 8) % 7]
+        lam = (1 / big - designed) / (1 / big + np.sqrt(0.21))
+        rho = lam * np.outer(psi, psi.conj()) + (1 - lam) * np.eye(big) / big
     if not cplx:
         rho = rho.real
     for sys_ in (1, 2):
         lam_min = ref.eigmin(ref.partial_transpose(rho, [sys_ - 1], [da, db], [da, db]))
-        if -1e-3 < lam_min < -1e-12:
+        if designed is not None and abs(lam_min - designed) > 1e-9:
+            ctx.harness_error("designed partial-transpose eigenvalue not met")
+            continue
+        if designed is not None and r % 3 == 2:
+            continue  # tol = 1e-6 reaches the test as a relative tolerance (section 3): the band between 1e-8 and 1e-6 is not decided
+        if designed is None and -1e-3 < lam_min < -1e-12:
             ctx.evals["O1:is_ppt:band-skipped"] += 1
             continue
         want = lam_min >= -1e-12
@@ -129,7 +141,7 @@ def _run_ppt(ctx, spec, rng):
             args = (rho.copy(), sys_, dim) if tol is None else (rho.copy(), sys_, dim, tol)
             got = ctx.call(is_ppt, *args)
             if got is not FAILED:
-                ctx.check("O1:is_ppt", bool(got) == want, sig=(da, db, sys_, fname, kind, tol is None), nt=da != db or sys_ == 1,
+                ctx.check("O1:is_ppt", bool(got) == want, sig=(da, db, sys_, fname, kind, tol is None, designed), nt=da != db or sys_ == 1,
                           mech=f"is_ppt:wrong-verdict[want={want}]", detail={"dims": [da, db], "sys": sys_, "lambda_min_PT": lam_min, "got": bool(got), "dim_form": fname, "tol": tol})
             gotn = ctx.call(is_npt, *args)
             if gotn is not FAILED and got is not FAILED:
